@@ -184,6 +184,8 @@ var fullTokens = func() []token {
 		{"push75", cat([]byte{75}, rep(2, 75))}, {"pd1(76)", cat([]byte{0x4c, 76}, rep(2, 76))},
 		{"push520", cat([]byte{0x4d, 0x08, 0x02}, rep(1, 520))}, {"push521", cat([]byte{0x4d, 0x09, 0x02}, rep(1, 521))},
 		{"trunc(02 aa)", []byte{0x02, 0xaa}}, {"trunc(4c)", []byte{0x4c}},
+		{"pd4(len ffffffff)", []byte{0x4e, 0xff, 0xff, 0xff, 0xff}}, {"pd4(len 80000000)", []byte{0x4e, 0x00, 0x00, 0x00, 0x80}},
+		{"pd2(len ffff)", []byte{0x4d, 0xff, 0xff}},
 	}
 	for b := 0x4f; b <= 0xbb; b++ {
 		n, ok := refscript.OpNames[byte(b)]
@@ -205,8 +207,8 @@ var initStackNames = []string{"[]", "[1]", "[0]", "[1 1]", "[2 3]"}
 // only arrive un-checked through a witness stack, three- and six-deep stacks for
 // ROT/WITHIN/2ROT, maximal 4-byte numbers for overflowing arithmetic, a 520-byte item.
 var extraStacks = [][][]byte{{{0x00}}, {{0x80}}, {{0x01, 0x00}}, {{1}, {1}, {1}}, {{1}, {2}, {3}, {4}, {5}, {6}},
-	{{0xff, 0xff, 0xff, 0x7f}, {0xff, 0xff, 0xff, 0x7f}}, {rep(1, 520)}, {{0x81}, {5}}}
-var extraStackNames = []string{"[00]", "[80]", "[0100]", "[1 1 1]", "[1 2 3 4 5 6]", "[7fffffff 7fffffff]", "[520 bytes]", "[-1 5]"}
+	{{0xff, 0xff, 0xff, 0x7f}, {0xff, 0xff, 0xff, 0x7f}}, {rep(1, 520)}, {{0x81}, {5}}, {{0x00, 0x80}}, {{0x80, 0x00}}}
+var extraStackNames = []string{"[00]", "[80]", "[0100]", "[1 1 1]", "[1 2 3 4 5 6]", "[7fffffff 7fffffff]", "[520 bytes]", "[-1 5]", "[0080]", "[8000]"}
 
 // reduced flag tables for the thorough-only long programs
 var (
@@ -346,7 +348,7 @@ func runL2(r *ev.Run) bool {
 	r.Add("L2_programs_core_alphabet", n2+1)
 	r.Set("bounds_L2", map[string]interface{}{
 		"core_alphabet": names, "core_alphabet_size": len(coreTokens), "core_max_len": 3,
-		"full_alphabet_size": len(fullTokens), "full_alphabet": "all push forms (20) + every opcode byte 0x4f..0xbb + 0xfe 0xff",
+		"full_alphabet_size": len(fullTokens), "full_alphabet": "all push forms incl. truncated and oversized PUSHDATA lengths (23) + every opcode byte 0x4f..0xbb + 0xfe 0xff",
 		"full_max_len": 2, "initial_stacks": initStackNames, "extra_initial_stacks_full_alphabet_len_le2": extraStackNames,
 		"wrappings": []string{"bare (scriptSig pushes stack)", "P2SH redeem script", "P2WSH witness script", "tapscript leaf 0xc0 (single-leaf tree, NUMS internal key)"},
 		"flag_sets": map[string]int{"bare": len(fsNoDER7), "p2sh": len(fsRedeem5), "p2wsh": len(fsWitness4), "tapscript": len(fsTapscript)},
